@@ -110,6 +110,9 @@ enum Workload {
   RawFault { fault: &'static str },
   /// receiver application pauses, sender keeps sending with SNDTIMEO=0; afterwards everything accepted arrives
   Backpressure { side: u8, size: usize },
+  /// messages far larger than the socket buffer sent back to back (every write completes short), then a
+  /// trickle of further messages while the burst is still going out; the receiver starts late
+  LargeBurst { side: u8, size: usize, burst: usize, trickle: usize },
   /// a receiver with a tiny RCVHWM and a slightly slow application: order must survive back-pressure
   SlowConsumer { n: usize, rcvhwm: i32 },
   /// connect / talk / close cycles, then a burst; file descriptors must not leak
@@ -438,6 +441,52 @@ async fn run_workload(w: &Workload, v: Variant) -> Value {
       // the count accepted depends on kernel buffer sizes and is not compared; the contract is
       json!({"hit_backpressure": refused > 0, "all_accepted_delivered_in_order": got == accepted})
     }
+    Workload::LargeBurst { side, size, burst, trickle } => {
+      let rx = mk(&pctx, SocketType::Pull, v_for(*side, v, false), &[(o::RCVHWM, 1000)]).await;
+      let ep = bound(&rx).await;
+      let tx = mk(&ctx, SocketType::Push, v_for(*side, v, true), &[(o::SNDHWM, 1000), (o::SNDTIMEO, 20_000)]).await;
+      tx.connect(&ep).await.expect("connect");
+      wait_connected(&tx).await;
+      let (size, burst, trickle) = (*size, *burst, *trickle);
+      let total = burst + trickle;
+      let tx2 = tx.clone();
+      let sender = tokio::spawn(async move {
+        let mut errs = vec![];
+        for i in 0..total as u32 {
+          let body = payload(i + 1, size + (i as usize % 7) * 1000);
+          if let Err(e) = tx2.send(msg(&body, false)).await {
+            errs.push(kind_of(&e));
+          }
+          if i as usize >= burst {
+            tokio::time::sleep(Duration::from_millis(4)).await;
+          }
+        }
+        errs
+      });
+      // the reader starts late so that the kernel buffers are full when the burst goes out
+      tokio::time::sleep(Duration::from_millis(150)).await;
+      let mut intact = 0usize;
+      let mut first_bad: Option<String> = None;
+      let mut received = 0usize;
+      while received < total {
+        match tokio::time::timeout(Duration::from_secs(10), rx.recv()).await {
+          Ok(Ok(m)) => {
+            let d = m.data().unwrap_or(&[]);
+            let want = payload(received as u32 + 1, size + (received % 7) * 1000);
+            if d == &want[..] {
+              intact += 1;
+            } else if first_bad.is_none() {
+              let off = d.iter().zip(want.iter()).position(|(a, b)| a != b);
+              first_bad = Some(format!("message {}: {} bytes (expected {}), first difference at {:?}", received, d.len(), want.len(), off));
+            }
+            received += 1;
+          }
+          _ => break,
+        }
+      }
+      let errs = tokio::time::timeout(Duration::from_secs(30), sender).await.ok().and_then(|r| r.ok()).unwrap_or_else(|| vec!["sender-stuck".into()]);
+      json!({"all_delivered_intact_in_order": intact == total, "send_errors": errs, "_received": received, "_first_bad": format!("{:?}", first_bad)})
+    }
     Workload::SlowConsumer { n, rcvhwm } => {
       // two rounds on fresh connections: the window is timing dependent, any round may show it
       let mut all_sent = true;
@@ -631,6 +680,10 @@ fn workloads(thorough: bool, recv_size: usize, send_size: usize) -> Vec<Workload
     w.push(Workload::ReqRep { side, rounds: if thorough { 4 } else { 2 } });
     w.push(Workload::PubSub { side });
     w.push(Workload::Backpressure { side, size: 20_000 });
+    w.push(Workload::LargeBurst { side, size: 3 << 20, burst: 5, trickle: if thorough { 40 } else { 20 } });
+    if thorough {
+      w.push(Workload::LargeBurst { side, size: 600_000, burst: 30, trickle: 60 });
+    }
   }
   let (bytes, _) = transcript();
   let n = bytes.len();
@@ -744,7 +797,7 @@ fn main() {
       let detail_of = |w: &Workload| match w {
         Workload::RawFault { fault } => format!("{}:{}", kind, fault),
         Workload::Stream { side, multipart, .. } => format!("{}:side{}{}", kind, side, if *multipart { ":multipart" } else { "" }),
-        Workload::Echo { side, .. } | Workload::ReqRep { side, .. } | Workload::PubSub { side } | Workload::Backpressure { side, .. } => format!("{}:side{}", kind, side),
+        Workload::Echo { side, .. } | Workload::ReqRep { side, .. } | Workload::PubSub { side } | Workload::Backpressure { side, .. } | Workload::LargeBurst { side, .. } => format!("{}:side{}", kind, side),
         _ => kind.clone(),
       };
       let class = format!("{}:{}", detail_of(w), v.name());
